@@ -4,6 +4,20 @@ section in which a committed reader that found nothing more to read decides betw
 moved since I looked: go on", "the log is read-only and fully committed: end" and "register and wait" -
 translated from the code. `Gen/GoHW.lean` is regenerated on every run. A channel send is an effect.
 
+The writers' side of the same hand-shake is translated too (second half of this file): `SetHighWatermark`,
+`OverrideHighWatermark`, `notifyHWChange`, `notifyReadonly`, `SetReadonly`, `removeHWWaiter`. For EVERY map of
+registered waiters (no bound on their number; loop lemma `wake_loop` by induction over the map):
+  * `go_SetHighWatermark`: a value above the current HW is stored, EVERY registered waiter's channel receives
+    `false` exactly once and the map is empty afterwards; any other value changes nothing and wakes nobody
+    (the HW never moves backwards through this call);
+  * `go_OverrideHighWatermark`: the value is stored whatever it is, and every waiter is woken;
+  * `go_notifyReadonly` / `go_SetReadonly`: with HW < newest offset nobody is woken and the map is kept; otherwise
+    every waiter receives `true` and the map is emptied; `SetReadonly(false)` only stores the flag;
+  * `go_removeHWWaiter`: exactly the reader's own entry goes.
+Together with `go_waitForHW` this is "no lost wake-up" at the level of the code: a reader is either told at
+registration time that the HW has moved, or it is in the map, and every later HW change reaches everything in the map.
+`model_setHW` / `model_setReadonly` / `model_wakeAll` tie the model's transitions to the same shape.
+
 `go_waitForHW`: for every log state (high watermark, newest offset, read-only flag, waiters already registered)
 and every sampled value, exactly one of three things happens, decided in THIS order:
   1. the log's HW differs from the sample  -> `false` is sent, nobody is registered;
@@ -13,8 +27,7 @@ That is the model's `HWReader.registerWait true` (`model_registerWait`: its thre
 regenerated comparison operators). The order matters: a reader with a stale sample on a read-only, fully committed
 log must be told to go on (there may be committed messages it has not seen), not that the log has ended.
 -/
-import Liftbridge.Proofs.GoCodeBase
-import Liftbridge.Gen.GoHW
+import Liftbridge.Proofs.GoHW
 import Liftbridge.Model.HWReader
 
 set_option linter.unusedSimpArgs false
@@ -75,5 +88,126 @@ theorem model_registerWait (s : HWReader.State) (id : Nat) (r : HWReader.Reader)
   unfold HWReader.registerWait verdict
   by_cases h1 : s.log.hw = r.hwSeen <;> by_cases h2 : s.log.hw = s.log.newest <;> cases hr : s.log.readonly <;>
     simp [Gen.HWReader.waitRecheckCmp, Gen.HWReader.waitReadonlyCmp, Cmp.evalInt, h1, h2, hr] <;> simp_all
+
+
+/-! ### the writers' side -/
+
+def fieldOf (f : String) : Option Val → Option Val
+  | some (.struct fs) => lookup f fs
+  | _ => none
+
+/-- (complete effect trace, high watermark afterwards, waiters afterwards) -/
+def hwView : R Out → Option (List (String × List Val) × Option Val × Option Val)
+  | .ok o => some (o.eff, fieldOf "hw" o.recv, fieldOf "hwWaiters" o.recv)
+  | _ => none
+
+/-- the fields of the log record, as a list (the loop lemma is stated over it) -/
+def logFields (hw newest : Int) (readonly : Bool) (waiters : List (String × Val)) : List (String × Val) :=
+  [("hw", .int hw), ("NewestOffset", .int newest), ("IsReadonly", .bool readonly), ("hwWaiters", .struct waiters)]
+
+set_option maxRecDepth 8000 in
+set_option maxHeartbeats 1000000 in
+theorem go_SetHighWatermark (hw newest : Int) (readonly : Bool) (waiters : List (String × Val)) (h : Int) :
+    hwView (runG prog noExt 30 "SetHighWatermark" (some (encLog hw newest readonly waiters)) [.int h] []) =
+      some (if h > hw then (sends false waiters, some (.int h), some (.struct []))
+            else ([], some (.int hw), some (.struct waiters))) := by
+  by_cases hc : h > hw
+  · obtain ⟨st', h1, h2, h3⟩ := wake_loop 21 false (logFields h newest readonly waiters) waiters waiters
+      { env := envOf [("l", .struct (logFields h newest readonly waiters))], eff := [] }
+      (by simp [gomini, envOf, lookup, update, logFields])
+    simp [wakeBody, logFields] at h1 h2
+    simp [runG, fn_commitLog_SetHighWatermark, fn_commitLog_notifyHWChange, gomini, encLog, hwView, binVal_int, binInt, builtin, noExt, lookup, update, hc, setField,
+          getField, h1, h2, h3, eraseAll_self, fieldOf]
+  · simp [runG, fn_commitLog_SetHighWatermark, gomini, encLog, hwView, binVal_int, binInt, builtin, noExt, lookup, update, hc, setField,
+          getField, fieldOf]
+
+set_option maxRecDepth 8000 in
+set_option maxHeartbeats 1000000 in
+theorem go_OverrideHighWatermark (hw newest : Int) (readonly : Bool) (waiters : List (String × Val)) (h : Int) :
+    hwView (runG prog noExt 30 "OverrideHighWatermark" (some (encLog hw newest readonly waiters)) [.int h] []) =
+      some (sends false waiters, some (.int h), some (.struct [])) := by
+  obtain ⟨st', h1, h2, h3⟩ := wake_loop 22 false (logFields h newest readonly waiters) waiters waiters
+    { env := envOf [("l", .struct (logFields h newest readonly waiters))], eff := [] }
+    (by simp [gomini, envOf, lookup, update, logFields])
+  simp [wakeBody, logFields] at h1 h2
+  simp [runG, fn_commitLog_OverrideHighWatermark, fn_commitLog_notifyHWChange, gomini, encLog, hwView, binVal_int, binInt, builtin, noExt, lookup, update, setField,
+        getField, h1, h2, h3, eraseAll_self, fieldOf]
+
+set_option maxRecDepth 8000 in
+set_option maxHeartbeats 1000000 in
+theorem go_notifyReadonly (hw newest : Int) (readonly : Bool) (waiters : List (String × Val)) :
+    hwView (runG prog noExt 30 "notifyReadonly" (some (encLog hw newest readonly waiters)) [] []) =
+      some (if hw < newest then ([], some (.int hw), some (.struct waiters))
+            else (sends true waiters, some (.int hw), some (.struct []))) := by
+  by_cases hc : hw < newest
+  · simp [runG, fn_commitLog_notifyReadonly, gomini, encLog, hwView, binVal_int, binInt, builtin, noExt, lookup, update, hc, setField,
+          getField, fieldOf]
+  · obtain ⟨st', h1, h2, h3⟩ := wake_loop 23 true (logFields hw newest readonly waiters) waiters waiters
+      { env := envOf [("l", .struct (logFields hw newest readonly waiters))], eff := [] }
+      (by simp [gomini, envOf, lookup, update, logFields])
+    simp [wakeBody, logFields] at h1 h2
+    simp [runG, fn_commitLog_notifyReadonly, gomini, encLog, hwView, binVal_int, binInt, builtin, noExt, lookup, update, hc, setField,
+          getField, h1, h2, h3, eraseAll_self, fieldOf]
+
+/-- the log record with the raw flag `SetReadonly` stores into (the store itself is an effect: `atomic.StoreInt32`) -/
+def encLogR (hw newest : Int) (flag : Int) (waiters : List (String × Val)) : Val :=
+  .struct [("hw", .int hw), ("NewestOffset", .int newest), ("readonly", .int flag), ("hwWaiters", .struct waiters)]
+
+set_option maxRecDepth 8000 in
+set_option maxHeartbeats 1000000 in
+theorem go_SetReadonly (hw newest flag : Int) (waiters : List (String × Val)) (b : Bool) :
+    hwView (runG prog noExt 30 "SetReadonly" (some (encLogR hw newest flag waiters)) [.bool b] []) =
+      some (if b then
+              (if hw < newest then ([("atomic.StoreInt32", [.int flag, .int 1])], some (.int hw), some (.struct waiters))
+               else (("atomic.StoreInt32", [.int flag, .int 1]) :: sends true waiters, some (.int hw), some (.struct [])))
+            else ([("atomic.StoreInt32", [.int flag, .int 0])], some (.int hw), some (.struct waiters))) := by
+  cases b
+  · simp [runG, fn_commitLog_SetReadonly, gomini, encLogR, hwView, binVal_int, binInt, builtin, noExt, lookup, update, setField,
+          getField, fieldOf, convert, wrapS]
+  · by_cases hc : hw < newest
+    · simp [runG, fn_commitLog_SetReadonly, fn_commitLog_notifyReadonly, gomini, encLogR, hwView, binVal_int, binInt, builtin, noExt, lookup, update, hc, setField,
+            getField, fieldOf, convert, wrapS]
+    · obtain ⟨st', h1, h2, h3⟩ := wake_loop 21 true
+        [("hw", .int hw), ("NewestOffset", .int newest), ("readonly", .int flag), ("hwWaiters", .struct waiters)] waiters waiters
+        { env := envOf [("l", .struct [("hw", .int hw), ("NewestOffset", .int newest), ("readonly", .int flag), ("hwWaiters", .struct waiters)])],
+          eff := [("atomic.StoreInt32", [.int flag, .int 1])] }
+        (by simp [gomini, envOf, lookup, update])
+      simp [wakeBody] at h1 h2
+      simp [runG, fn_commitLog_SetReadonly, fn_commitLog_notifyReadonly, gomini, encLogR, hwView, binVal_int, binInt, builtin, noExt, lookup, update, hc, setField,
+            getField, h1, h2, h3, eraseAll_self, fieldOf, convert, wrapS]
+
+theorem go_removeHWWaiter (hw newest : Int) (readonly : Bool) (waiters : List (String × Val)) (reader : String) :
+    hwView (runG prog noExt 30 "removeHWWaiter" (some (encLog hw newest readonly waiters)) [.str reader] []) =
+      some ([], some (.int hw), some (.struct (eraseKey reader waiters))) := by
+  simp [runG, fn_commitLog_removeHWWaiter, gomini, encLog, hwView, builtin, noExt, lookup, update, setField, getField, fieldOf]
+
+/-- every waiter is among the woken, whatever the map: the sends of a wake-up list one entry per registered reader -/
+theorem sends_complete (b : Bool) (waiters : List (String × Val)) (k : String) (ch : Val) (h : (k, ch) ∈ waiters) :
+    ("chan.send", [ch, .bool b]) ∈ sends b waiters := by
+  simp only [sends, List.mem_map]
+  exact ⟨(k, ch), h, rfl⟩
+
+/-- the model's `SetHighWatermark` has the shape of the code: strictly greater, store, wake everybody -/
+theorem model_setHW (s : HWReader.State) (h : Int) :
+    HWReader.setHW s h = if h > s.log.hw then HWReader.wakeAll { s with log := { s.log with hw := h } } false else s := by
+  unfold HWReader.setHW
+  simp [Gen.Log.setHWCmp, Gen.HWReader.setHWNotifies, Cmp.evalInt]
+
+/-- the model's wake-up empties the waiter set and leaves no waiting reader behind among the registered ones -/
+theorem model_wakeAll (s : HWReader.State) (ro : Bool) : (HWReader.wakeAll s ro).waiters = [] := by
+  simp [HWReader.wakeAll, Gen.HWReader.notifyClearsWaiters]
+
+/-- the model's `SetReadonly`: the wake-up happens exactly when the code's `notifyReadonly` does not return early -/
+theorem model_setReadonly (s : HWReader.State) (b : Bool) :
+    HWReader.setReadonly s b =
+      (if b = true ∧ ¬ s.log.hw < s.log.newest then HWReader.wakeAll { s with log := { s.log with readonly := b } } true
+       else { s with log := { s.log with readonly := b } }) := by
+  unfold HWReader.setReadonly
+  cases b <;> by_cases h : s.log.hw < s.log.newest <;> simp [Gen.HWReader.notifyReadonlyCmp, Cmp.evalInt, h]
+
+/-- non-vacuity: two registered readers, HW 3 → 5: both channels receive `false`, the map is empty -/
+example : hwView (runG prog noExt 30 "SetHighWatermark" (some (encLog 3 9 false [("r1", chanV), ("r2", chanV)])) [.int 5] []) =
+    some ([("chan.send", [chanV, .bool false]), ("chan.send", [chanV, .bool false])], some (.int 5), some (.struct [])) := by
+  rw [go_SetHighWatermark]; simp [sends]
 
 end Liftbridge.Props.GoHW
